@@ -421,6 +421,42 @@ def replay_fit(ck, em, rec, rng, reported, outcomes):
                              "observed": {a: np.asarray(getattr(got, a)).tolist() for a in bad}})
         return
     outcomes["fit:%s:%s:ok" % (kind, mode)] += 1
+    # the same machine object fitted again on the same bag with ANOTHER assignment of the sessions to the classes
+    # (same length, same number of classes): a second training depends on its own labels.  (An ISV / JFA fit on a
+    # machine that has subspaces continues from them: both trainings are started from the same assigned values.)
+    if K >= 2 and seed % 3 == 0 and not used_before:
+        yb = [(int(v) + 1) % K for v in y][::-1]
+        if sorted(set(yb)) == list(range(K)) and yb != list(y):
+            start = machine()
+            init_vals = {a: np.array(getattr(start, a), dtype=float) for a in attrs}
+
+            def lab_b():
+                return list(yb) if y_as == "list" else np.array(yb)
+
+            def second(fit_input):
+                m = machine()
+                with dask.config.set(scheduler=bm.ClassOrderScheduler(rec["orders"], K, isolate=(mode == "Isolated"),
+                                                                      rng=random.Random(seed + 1))):
+                    m.fit(fit_input(), labels())
+                    for a in attrs:
+                        setattr(m, a, init_vals[a].copy())
+                    m.fit(fit_input(), lab_b())
+                return m
+            ok1, ref2 = guarded(ck, reported, clause, dict(scn, call="fit(list, y); fit(list, y')"), lambda: second(lambda: bm.fresh(stats)))
+            ok2, got2 = guarded(ck, reported, clause, dict(scn, call="fit(bag, y); fit(bag, y')"),
+                                lambda: second(lambda: build_bag(bm.fresh(stats), comp, builder)[0]))
+            if ok1 and ok2:
+                errs2 = {a: rel_err(getattr(got2, a), getattr(ref2, a)) for a in attrs}
+                if any(not errs2[a] <= TOL for a in attrs):
+                    c = "M2:BagTrain:BagEqualsList"
+                    reported[c] += 1
+                    if reported[c] <= MAX_REPORTED:
+                        ck.violation(c, {"mechanism": "M2", "module": "BagTrain", "scenario": dict(scn, second_labels=yb),
+                                         "detail": "one machine fitted on the bag with labels y and then, from the same starting "
+                                                   "subspaces, with labels y': differs from the same two fits on the list",
+                                         "relative_error": errs2})
+                    return
+            outcomes["fit:refit-other-labels"] += 1
     if K == 3 and bm.mixes_classes(y, comp):
         ck.sample({"mechanism": "M2", "scenario": scn, "max_relative_error": errs, "verdict": "ok"}, limit=4)
 
